@@ -345,3 +345,33 @@ Print Assumptions C06_generation_history_independent.
 Theorem C06_raw_key_history_refuted : history_ck false [] hist_pat hist_calls <> map (generate hist_pat) hist_calls.
 Proof. exact raw_key_history_refuted. Qed.
 Print Assumptions C06_raw_key_history_refuted.
+
+(* ---------------------------------------------------------------- histories on one request object (Proofs/C06_req.v) *)
+Require Import Verif.Proofs.C06_req.
+
+(* regenerated fact: no function on the way of URL generation writes to the request *)
+Theorem C06_request_state_not_written : request_state_written = false.
+Proof. exact Facts_ok_request_state. Qed.
+Print Assumptions C06_request_state_not_written.
+
+(* any history of SCRIPT_NAME changes, path_info_pop calls and generations on one request object: every
+   generation answers with route_url / route_path of the environ as it is at that step *)
+Theorem C06_request_generation_stateless : forall e rs target script pinfo memo steps,
+  run_req request_state_written e rs target (mkRS script pinfo memo) steps = spec_req e rs target script pinfo steps.
+Proof. exact request_generation_stateless. Qed.
+Print Assumptions C06_request_generation_stateless.
+
+(* ... and there route_url = scheme://authority ++ route_path for the CURRENT SCRIPT_NAME *)
+Theorem C06_request_history_prefix : forall e rs target steps script pinfo s u p,
+  In (s, (Ok u, p)) (spec_req e rs target script pinfo steps) ->
+  (forall els o kw, In (RGen els o kw) steps -> o_app_url o = None) ->
+  exists els o kw P, In (RGen els o kw) steps /\ p = Ok P /\ u = host_part (env_with e s) o ++ P.
+Proof. exact request_history_prefix. Qed.
+Print Assumptions C06_request_history_prefix.
+
+(* a quoted script name kept on the request refutes it: '/x' under '/a', SCRIPT_NAME := '/b', again *)
+Theorem C06_request_memo_refuted :
+  run_req true req_env [([114], req_pat)] [114] (mkRS [47; 97] [] None) req_steps
+  <> spec_req req_env [([114], req_pat)] [114] [47; 97] [] req_steps.
+Proof. exact request_memo_refuted. Qed.
+Print Assumptions C06_request_memo_refuted.
